@@ -125,4 +125,40 @@ META['C10'] = {
   'level_text': 'Proved: the generic decoder has no panic site (total into option) and a decoded slice/byte string never has more elements than input bytes (length prefix checked against bytes remaining), with every generated shape well-formed (re-checked each run). Go decoders are tied to it by verdict correspondence on hostile inputs under recover and a memory limit. Partial until the ledger model adds the validation half.',
 }
 
+LEDGER_TB = [KERNEL, EXTRACT, HARNESS, BLAKE,
+             'IDs, sighashes, transaction weights, the header verdict and the block commitment check are supplied with each block, computed by the implementation\'s own functions (what they bind is C12; header validation is C13); Ed25519 and SHA-256 are oracle tables filled from the real functions',
+             'membership is decided by the model against its own element store (the true forest\'s leaf list); "the attached proof is the element\'s current proof" is told by the harness from its store (the accumulator algorithms themselves are C04/C05)',
+             'verif hooks /repo/consensus/verif_hooks.go (leaf constructors + containsLeaf) for the Go-side store-verifies oracle']
+LEDGER_RULE = ('chains built on the real implementation on randomised networks (maturity delay, tax/storage-proof/foundation fork heights; v1-only, long mixed window, v2-only and v2-from-the-start eras), 18-31 steps each, '
+               'honest blocks mixing v1 payments (whole and partial covered fields, multi-input), contract formation with real file data, revisions, storage proofs from an independent naive prover, siafund transfers with claims, Foundation updates, '
+               'expiring contracts; v2 payments under pubkey/threshold/hash-lock/time-lock/legacy policies, ephemeral spends, siafund transfers, contract formation, revisions incl. key rotation, renewals, storage proofs with chain-index elements, expirations, attestations, Foundation updates; '
+               'random reverts of depth 1-3 followed by different continuations. Every block (and every adversarial variant, validate-only) is recomputed by the extracted ledger model: verdict and error class, every element diff with its leaf index, the siafund pool, Foundation addresses, leaf count, and the ledger sums over the model\'s own store. ')
+def _ledger(pid, focus, level_text, extra_assume):
+    return {
+      'rule': LEDGER_RULE + focus,
+      'trusted_base': LEDGER_TB,
+      'assumptions': ['the theorems are about single transactions / blocks of the model (what acceptance guarantees); the statement over whole histories is carried by recomputing every block of the generated histories and by the Go-side oracle over the exported diffs'] + extra_assume,
+      'level_text': level_text,
+      'harness_args': [],
+    }
+META['C01'] = _ledger('C01', 'C01 focus: outputs/siafunds inflated by one unit, wrong contract tax, miner payout off by one; oracle after every applied block: unspent outputs + unresolved contracts + unclaimed pool + forfeited = genesis + scheduled subsidies, siafunds = 10000, every claim = floor((pool-start)/10000)*value, payout = reward + fees.',
+  'Proved on the model: an accepted block pays miners exactly reward + v1 fees + v2 fees; a claim is floor((pool - claim start)/10000) * value and is defined whenever claim start <= pool; accepted v2 revisions keep the contract total. The implementation is tied to the model by recomputing every block of generated chains (verdicts, diffs, pool, ledger sums over the model\'s own store); the conservation equation over histories is evaluated by the model\'s sums and an independent Go-side oracle after every block.',
+  ['conservation over whole histories is not yet a Coq theorem (it is computed by the model and compared)'])
+META['C02'] = _ledger('C02', 'C02 focus: the same input twice in a transaction (re-signed), in two transactions, v1+v2, an ephemeral output spent twice, revise twice, prove twice, revise after proof, resolve twice, and across blocks: spent outputs / resolved contracts presented again with their maintained proofs (v2) or in the supplement (v1).',
+  'Proved on the model: an accepted v2 transaction spends pairwise distinct outputs, none used earlier in the block, each either ephemeral or the current unspent leaf of the store; a leaf marked spent is never accepted again whatever proof accompanies it; what is accepted is exactly the current unspent leaf. Tied to the code by recomputing every duplicated-use variant (error class included).', [])
+META['C03'] = _ledger('C03', 'C03 focus: after signing: output address changed, signature corrupted / dropped / duplicated, signed by another key, substituted unlock conditions or policy, preimage corrupted, contract host signature corrupted, contract key substituted, revision signed by the new instead of the current key, renewal signed by / changing other keys, attestation altered, Foundation update without the management input; claim address redirected (known finding F8).',
+  'Proved on the model: every accepted v2 input reveals a policy hashing to the parent address that is satisfied at the parent height/median time; every accepted contract is signed by its own keys; every accepted revision is signed by the keys of the contract as it currently stands. Tied to the code by recomputing every single-point tampering variant with real Ed25519. Partial: unforgeability is an oracle; which content each sighash binds is C12.', ['known finding F8 (ClaimAddress not covered) is reported as KNOWN-FINDING'])
+META['C06'] = _ledger('C06', 'C06 focus: after every revert the store obtained by applying the inverse of RevertUpdate\'s diffs and UpdateElementProof must equal the store before the block (ids, fields, leaf index, proofs), every element must verify against the parent state, re-applying gives byte-identical state and diffs; reorgs of depth 1-3 with different continuations.',
+  'Proved on the model: the diff of a spend records exactly the element and leaf index needed to restore the leaf list; created leaves are appended and can be truncated; re-applying is a function of (state, block). The implementation\'s RevertBlock (diffs, proof truncation, leaf restoration) is tied by the store-inverse oracle after every revert and by recomputing every state after reverts.', ['RevertBlock\'s diff computation is not modelled separately: a revert in the model returns to the previous state'])
+META['C07'] = _ledger('C07', 'C07 focus: revisions changing totals / not raising the revision number / raising missed host value / altering collateral / lowering capacity; storage proofs with corrupted leaf, corrupted hash, too short / too long, proof index of the wrong height; renewal payout mismatch; oracle: every resolution creates exactly the outputs of the latest revision (valid / missed / final) with maturity = height + delay.',
+  'Proved on the model: the v2 revision invariants (total, revision number, missed host value, collateral, capacity, heights, current keys), well-formedness of new contracts, the challenged leaf index is always in range. v1/v2 storage-proof verification (three leaf eras) and payouts are executable in the model and recomputed for every proof of generated chains incl. corrupted ones.', ['storage-proof completeness/soundness against the plain tree is exercised, not yet a theorem'])
+META['C08'] = _ledger('C08', 'C08 focus: at every height, for every output/contract near a bound: spend at maturity and one block earlier (v1 and v2), revise at window start-1/0/+1, prove in the first block after window start and before it, v2 revise at proof height-1/0/+1, prove at proof height 0/+1, expire at expiration 0/+1, v1 transaction at the require height-1/0, v2 transaction before the allow height.',
+  'Proved on the model: whatever is accepted satisfies the height rule (v1 below the require height, v2 from the allow height, inputs mature, contract and revision proof heights not in the past, policy above/after compare >= parent height / strictly after median). That the bound itself is accepted (not late) is pinned by the boundary probes at bound-1/bound/bound+1 recomputed by the model.', [])
+META['C09'] = _ledger('C09', 'C09 focus: block, supplement and state are encoded before and after every ValidateBlock/ApplyBlock call and must be byte-identical; ApplyBlock twice must give identical state and diffs; ApplyHeader must agree with ApplyBlock on the PoW state.',
+  'Proved on the model: block validation is the fold of per-transaction validate-then-apply; a spend records the presented element unchanged. Determinism is definitional in the model. The implementation\'s ownership discipline (in-place proof updates only on copies) is tied by comparing inputs before/after every call on generated chains. Partial: goroutine schedules / race detector runs are not part of this check yet.', ['concurrency is not exercised by this check'])
+c10 = META['C10']
+c10['rule'] += ' | validation half: ' + LEDGER_RULE + 'C10 focus: covered fields indexing nonexistent fields (incl. 2^63), fees/outputs summing past 2^128, maximal v2 fee; every ValidateBlock/ApplyBlock/RevertBlock runs under recover: a panic is a violation.'
+c10['trusted_base'] = c10['trusted_base'] + LEDGER_TB
+c10['level_text'] += ' Validation half: every Go panic site of validation/application is an explicit Panic in the ledger model (checked Currency arithmetic, slice indexing through the shared elements map); the model recomputes the verdict of structure-aware adversarial blocks, which is how the miner-fee overflow panic (fixed: 67407a9) was found.'
+
 NOT_YET = {}
